@@ -246,6 +246,7 @@ class Ctx:
         self.stats = {"canon": 0, "normalize": 0, "invrel": 0}
         self.diag = {}       # atom name -> True if declared diagonal in its last two slots (stored as vector atom)
         self.max_perm = 40320
+        self.idempotent = set()
 
     def intern(self, form):
         k = self.keys.get(form)
@@ -771,6 +772,8 @@ def simplify_mono(f, b, ctx):
         if pw == 0 and k[0] != "D":
             continue
         if k[0] == "A":
+            if pw > 1 and k[1] in getattr(ctx, "idempotent", ()):
+                pw = 1     # 0/1-valued selector atoms: s^k = s
             f2.append(("A", k[1], k[2], pw))
         elif k[0] == "N":
             f2.append(("N", k[1], pw))
